@@ -97,6 +97,9 @@ func writeEvidence(p *Property, o DriveOpts, agg *Agg, wall float64, viol int, k
 	}
 	b, _ := json.MarshalIndent(ev, "", " ")
 	dir := filepath.Join(o.VerifDir, "evidence")
+	if d := os.Getenv("VERIF_OUT"); d != "" {
+		dir = filepath.Join(d, "evidence")
+	}
 	os.MkdirAll(dir, 0o755)
 	if err := os.WriteFile(filepath.Join(dir, p.ID+".json"), b, 0o644); err != nil {
 		fmt.Fprintf(os.Stderr, "cannot write evidence: %v\n", err)
